@@ -38,6 +38,7 @@ EXPLANATION = (
     "returns the file to GOOD (health round trip through FTP and the file system), capacity boundaries under "
     "interleaved connects/disconnects, ACL/route blocking - these are behavioural."
 )
+TECHNIQUE = "static: exact status-ladder truth table of _process_connect, CFG must-pass for query/terminate gating, query-to-health-effect extraction, who-may-write"
 ASSUMPTIONS = [
     "payloads reach the service only through DatabaseService.receive (SoftwareManager port mapping)",
     "no setattr/exec writes to the connection table or the configured password (dynamic-feature census)",
